@@ -1740,6 +1740,9 @@ func (e *Extractor) Document() (*model.Document, []Warning, error) {
 		}
 
 		doc.AddPage(modelPage)
+		// AddPage numbers pages by their position in the document; keep the number
+		// of the source page so that page metadata stays true for a page selection
+		modelPage.Number = pageNum + 1
 	}
 
 	return doc, e.warnings, nil
